@@ -53,13 +53,14 @@ const (
 	CtTimersFired
 	CtSpawned
 	CtFinalizersRun
+	CtRandDraws // "random" numbers the library asked for (drawn from the schedule tape)
 	CtSimMicros // simulated time covered by the run's clock, in microseconds
 	NumCounters
 )
 
 // CounterNames for evidence.
 var CounterNames = [NumCounters]string{"pool_get", "pool_get_hit", "pool_get_new", "pool_put",
-	"fault_putdrop", "fault_miss", "fault_gc", "gc_dropped_objects", "steps", "task_switches", "inner_yields", "fault_stall", "blocked_yields", "spin_breaks", "fault_clock_jump", "timers_fired", "library_goroutines_as_tasks", "finalizers_run", "simulated_microseconds"}
+	"fault_putdrop", "fault_miss", "fault_gc", "gc_dropped_objects", "steps", "task_switches", "inner_yields", "fault_stall", "blocked_yields", "spin_breaks", "fault_clock_jump", "timers_fired", "library_goroutines_as_tasks", "finalizers_run", "library_random_draws", "simulated_microseconds"}
 
 // FaultDen is the denominator of all fault rates.
 const FaultDen = 256
@@ -116,6 +117,7 @@ type Sim struct {
 	pools       []*poolState
 	objKeys     []uintptr
 	objKeep     []unsafe.Pointer
+	Procs       int  // what runtime.GOMAXPROCS(0) and runtime.NumCPU() report to the library in this run
 	WeakObjIDs  bool // object numbers do not keep objects alive (C10: a caller may drop a header; numbers may then repeat, they are only labels there)
 	objVals     []int32
 	objCount    int
